@@ -50,6 +50,36 @@ def sig_detail(name, scen_events, at):
             req[p["job"]] = req.get(p["job"], 0) + (p["gpu"] * 100 if p["devs"] == 0 else p["devs"] * (p["frac"] or 1))
         sizes = "uniform" if len({req.get(j, 0) for j in jobs}) <= 1 else "mixed"
         return "evictions=%s moved=%d gang=%d sizes=%s" % ("+".join(acts), moved, gang, sizes)
+    if name == "C02_NominationFits":
+        # overnominated=<why>: in the violating cycle a statement moved a victim (evicted it and nominated it elsewhere) and a
+        # LATER statement of the same cycle nominated another pod onto the node of that nomination without evicting the
+        # moved pod again (finding G37: nominated pods are offered as victims; here the statement un-evicts the wrong eviction)
+        cyc_events = []
+        for k, e in enumerate(scen_events):
+            if at is not None and k > at:
+                break
+            if e.get("ev") == "CycleStart":
+                cyc_events = []
+            cyc_events.append(e)
+        moved = {}
+        for e in cyc_events:
+            if e.get("ev") == "Pipeline":
+                if any(x.get("ev") == "Evict" and x.get("ok") == 1 and x.get("p") == e["p"] and x.get("stmt") == e.get("stmt") and x.get("act") == e.get("act")
+                       for x in cyc_events):
+                    moved[e["p"]] = (e.get("act"), e.get("stmt"), e["n"])
+        why = "other"
+        seen = []
+        for e in cyc_events:
+            seen.append(e)
+            if e.get("ev") != "Pipeline":
+                continue
+            for p, (act, stmt, n) in moved.items():
+                if p == e["p"] or e["n"] != n or (e.get("act"), e.get("stmt")) == (act, stmt):
+                    continue
+                first = next(i for i, x in enumerate(cyc_events) if x.get("ev") == "Pipeline" and x.get("p") == p and (x.get("act"), x.get("stmt")) == (act, stmt))
+                if len(seen) - 1 > first and not any(x.get("ev") == "Evict" and x.get("p") == p for x in cyc_events[first + 1:]):
+                    why = "moved-victim-not-evicted-again"
+        return "overnominated=%s" % why
     return ""
 
 
@@ -117,12 +147,12 @@ def account(ctx, trace, nontrivial_fn=None):
     return stats
 
 
-def run_stage(ctx, prefixes, plan, nontrivial_fn=None, procs=16):
+def run_stage(ctx, prefixes, plan, nontrivial_fn=None, procs=16, tag=""):
     binary = vlib.go_build("cluster")
     traces = run_profiles(ctx, binary, plan, procs=procs)
-    trace = merge(ctx, traces, "cluster-trace.ndjson")
+    trace = merge(ctx, traces, "cluster-trace%s.ndjson" % tag)
     stats = account(ctx, trace, nontrivial_fn)
-    ctx.stage("cluster-real-runs", plan=plan, **stats)
+    ctx.stage("cluster-real-runs" + tag, plan=plan, predicates=invariants(prefixes) if tag else None, **stats)
     vlib.validate_traces_parallel(ctx, MODULE, trace, invariants(prefixes), tuple(prefixes), chunks=8, timeout=3000, heap="12g", sig_detail=sig_detail)
     return stats
 
